@@ -123,6 +123,15 @@ func c04Run(e *aEnv, c c04Case, waitLimit time.Duration) (res c04Result) {
 	conn := vconn.New(script)
 	conn.WaitLimit = waitLimit
 	e.cov.Arm(len(app), reply)
+	// mid-session observation: when the covert has received the client's data the tunnel is open and
+	// the registration is carrying a connection, so it must already be marked used (its lifetime
+	// is extended from that moment, not from the end of the session)
+	usedMidSession, midSeen := false, false
+	e.cov.SetOnReply(func() {
+		_, _, usedMidSession = cj.VerifRegState(e.rm, reg)
+		midSeen = true
+	})
+	defer e.cov.SetOnReply(nil)
 	ok, pan, _ := e.aRunHandler(conn, aPhantom(0, c.Reg.V6), 30*time.Second)
 	defer func() { res.waited = conn.TimedOutWaiting }()
 	for k := range cls {
@@ -192,6 +201,10 @@ func c04Run(e *aEnv, c c04Case, waitLimit time.Duration) (res c04Result) {
 	_, _, used := cj.VerifRegState(e.rm, reg)
 	if upd == 0 || !used {
 		res.key, res.msg = "not-marked-used", fmt.Sprintf("registration not marked used (update announcements=%d, used=%v)", upd, used)
+		return res
+	}
+	if midSeen && !usedMidSession {
+		res.key, res.msg = "not-marked-used-while-connected", "while the tunnel was open (covert had received the client's data) the registration was not yet marked used: a sweep during the session would forget a registration that is carrying a connection"
 		return res
 	}
 	// classification deadline cleared before relaying
